@@ -2,13 +2,13 @@ SPECIFICATION MCSpec
 CONSTANTS
   ShapeNames = {"chain0"}
   ModeNames = {"flag"}
-  GroupNames = {"C"}
+  GroupNames = {"D"}
   PairCap = 6
   ShallowMerge = FALSE
   NoCycleCheck = FALSE
   MissingParentIgnored = FALSE
-  ProfileBeatsFlag = TRUE
-  EnvProfileBeatsFlag = TRUE
-  WindowAsUnit = FALSE
+  ProfileBeatsFlag = FALSE
+  EnvProfileBeatsFlag = FALSE
+  WindowAsUnit = TRUE
 INVARIANTS C32_Winner
 CHECK_DEADLOCK FALSE
